@@ -256,6 +256,20 @@ def run(tier):
             acc.n["other_option_failures"] = acc.n.get("failures", 0)
             run_.merge(acc)
         shutil.rmtree(os.path.dirname(exe2), ignore_errors=True)
+    # a target where plain char is unsigned (ARM, POWER, s390x, RISC-V; here: -funsigned-char): `x < 0` tests on
+    # decoded characters behave differently there
+    name, en, exe3, err, ipd = C19.build_config(("c05-uchar", list(gen.METHODS), None, "-O1 -g0 -funsigned-char"))
+    if exe3 is None:
+        run_.acc.inconc("-funsigned-char build failed: %s" % err[:200])
+    else:
+        sub = [c for c in cases if c[0].startswith(("sweep/", "mutated/", "special", "prefix"))][:9000]
+        for acc in pool.pmap(do_chunk, [(tok, c, exe3) for c in pool.chunks(sub, 400)]):
+            acc.n["unsigned_char_build_cases"] = acc.n.get("evaluations", 0)
+            for v in acc.viol:
+                v["key"] += "@unsigned-char"
+                v["detail"] = "[-funsigned-char build] " + v["detail"]
+            run_.merge(acc)
+        shutil.rmtree(os.path.dirname(exe3), ignore_errors=True)
     # the tokens themselves must be refused as settings (once; independent of seed)
     w = rt.vw(FL)
     res, end = w.run([rt.obj_line(0), rt.crypt_line("crypt_rn", 0, b"x", b"*0"),
@@ -276,6 +290,7 @@ def run(tier):
         "successes_observed": int(a.n.get("successes", 0)),
         "failure_tokens_enabled": tok,
         "failures_observed_with_the_other_failure_token_option": int(a.n.get("other_option_failures", 0)),
+        "cases_on_an_unsigned_char_build": int(a.n.get("unsigned_char_build_cases", 0)),
         "exhaustive": tier == "thorough",
         "flavour": FL,
     }
